@@ -323,12 +323,19 @@ def sh(*a, **k):
     return subprocess.run(list(a), capture_output=True, text=True, **k)
 
 
-def run_check(prop, repo, scratch, timeout):
+C06_SOURCES = None     # set per mutant by worker(): "trso" for the trso group unless --full-c06
+
+
+def run_check(prop, repo, scratch, timeout, c06_sources=None):
+    C06_SOURCES = c06_sources
     ev, rp = scratch / "ev", scratch / "rp"
     shutil.rmtree(rp, ignore_errors=True)
     env = dict(os.environ, Y0_REPO=str(repo), VERIF_EVIDENCE_DIR=str(ev), VERIF_REPLAY_DIR=str(rp), VERIF_NO_ESCALATE="1",
                PYTHONDONTWRITEBYTECODE="1")
     env.pop("VERIF_SEED", None)
+    env.pop("VERIF_C06_SOURCES", None)
+    if C06_SOURCES and prop == "C06":
+        env["VERIF_C06_SOURCES"] = C06_SOURCES
     if os.environ.get("MUTD_SEED"):
         env["VERIF_SEED"] = os.environ["MUTD_SEED"]
     t0 = time.time()
@@ -402,7 +409,9 @@ def worker(k, queue, results, args, lock):
                     for p in m["run"]:
                         if args.only_prop and p != args.only_prop:
                             continue
-                        res = run_check(p, repo, scratch, args.timeout)
+                        res = run_check(p, repo, scratch, args.timeout,
+                                        c06_sources="trso" if (m["group"] == "trso" and not args.full_c06) else None)
+                        res["c06_sources"] = "trso" if (p == "C06" and m["group"] == "trso" and not args.full_c06) else "all"
                         rec["runs"].append(res)
                         with lock:
                             print(f"{m['id']:5s} {p} {res['outcome']:20s} fails={res['oracle_failures']} dis={res['disagreements']} "
@@ -437,7 +446,10 @@ def suite_worker(k, queue, results, args, lock):
             try:
                 f.write_text(src.replace(m["old"], m["new"]))
                 t0 = time.time()
-                p = subprocess.Popen(["python3", str(VERIF / "tools" / "baseline.py"), str(repo)], stdout=subprocess.PIPE,
+                cmd = ["python3", str(VERIF / "tools" / "baseline.py"), str(repo)]
+                if m["file"] == TR and not args.full_suite:
+                    cmd = ["python3", str(Path(__file__).resolve()), "--baseline-subset", str(repo)]
+                p = subprocess.Popen(cmd, stdout=subprocess.PIPE,
                                      stderr=subprocess.STDOUT, text=True, start_new_session=True,
                                      env=dict(os.environ, PYTHONDONTWRITEBYTECODE="1"))
                 try:
@@ -458,6 +470,33 @@ def suite_worker(k, queue, results, args, lock):
                 f.write_text(src)
     finally:
         shutil.rmtree(scratch, ignore_errors=True)
+
+
+def baseline_subset(repo, files=("tests/test_algorithm/test_transport.py",), prefix="tests.test_algorithm.test_transport."):
+    """tools/baseline.py restricted to the pinned tests of the one test module that executes the functions mutated in transport.py
+    (api.py of counterfactual_transport and two other test modules import only transport_variable / is_transport_node, which no
+    mutant touches); same output format as baseline.py"""
+    import tempfile
+    import xml.etree.ElementTree as ET
+    base = json.load(open("/root/.vp/BASELINE.json"))
+    want = {t for t in base["stable_pass"] if t.startswith(prefix)}
+    fd, path = tempfile.mkstemp(suffix=".xml")
+    os.close(fd)
+    env = dict(os.environ)
+    env.pop("Y0_VERIF", None)
+    env["PYTHONPATH"] = os.path.join(repo, "src")
+    subprocess.run(["/venv/bin/python", "-m", "pytest", "-q", "-p", "no:cacheprovider", "--timeout=900", "-n", "2",
+                    "--continue-on-collection-errors", f"--junitxml={path}", *files], cwd=repo, env=env, capture_output=True, text=True)
+    passed = set()
+    for tc in ET.parse(path).getroot().iter("testcase"):
+        if not any(ch.tag in ("failure", "error", "skipped") for ch in tc):
+            passed.add(f"{tc.get('classname')}::{tc.get('name')}")
+    os.unlink(path)
+    missing = sorted(want - passed)
+    print(f"passed={len(passed)} baseline={len(want)} baseline_missing={len(missing)}")
+    for t in missing[:40]:
+        print("  MISSING", t)
+    return 1 if missing else 0
 
 
 def classify(rec, run):
@@ -568,7 +607,7 @@ def write_md(path, results, before=None, suite=None):
 
 def main():
     ap = argparse.ArgumentParser()
-    ap.add_argument("--repo", required=True)
+    ap.add_argument("--repo", default=None)
     ap.add_argument("--group", default=None)
     ap.add_argument("--id", default=None, help="comma separated mutant ids")
     ap.add_argument("--only-prop", default=None)
@@ -579,11 +618,18 @@ def main():
     ap.add_argument("--before", default=None, help="result file of the run before the fixes (for the before/after table)")
     ap.add_argument("--merge", default=None, help="existing result file: re-run only the selected mutants, keep the other records")
     ap.add_argument("--verify", action="store_true")
+    ap.add_argument("--full-suite", action="store_true", help="--suite: run all 387 pinned tests also for transport.py mutants (default: only the "
+                    "pinned tests of tests/test_algorithm/test_transport.py, the only test module that executes a mutated function)")
+    ap.add_argument("--baseline-subset", default=None, metavar="REPO", help=argparse.SUPPRESS)
+    ap.add_argument("--full-c06", action="store_true", help="group trso: run the whole registered C06 check (default: only its TRSO sub-stream, "
+                    "VERIF_C06_SOURCES=trso; the other four sub-streams never execute transport.py)")
     ap.add_argument("--render", action="store_true", help="only rewrite --md from the results in --json (and --before, suite file)")
     ap.add_argument("--suite", default=None, metavar="FILE",
                     help="instead of the checks run the pinned test suite (tools/baseline.py) on each selected mutant; results merged into FILE")
     ap.add_argument("--not-caught-in", default=None, metavar="RESULTS", help="select the mutants that RESULTS does not show caught with a replay by every check that ran")
     args = ap.parse_args()
+    if args.baseline_subset:
+        sys.exit(baseline_subset(args.baseline_subset))
     args.repo = Path(args.repo).resolve()
     if args.repo == Path("/repo"):
         sys.exit("refusing to use /repo")
